@@ -76,6 +76,58 @@ theorem solve_for_t_sound (solver : K → K → K → K → K → List K) (w1 w2
       · cases h; right; right; rename_i hn; exact ⟨by norm_num, hn⟩
       · cases h
 
+/-- AND WHAT `None` MEANS: no parameter in [-0.001, 1.001] offered by the solver for either coordinate has its curve point within
+    `accuracy` of the point, and the point is not within 1e-9 of the start or the end point - `t_for_point` is complete relative to
+    the root solver -/
+theorem solve_for_t_none (solver : K → K → K → K → K → List K) (w1 w2 w3 w4 point : V2 K) (accuracy : K)
+    (h : solve_curve_for_t_along_axis solver w1 w2 w3 w4 point accuracy = none) :
+    (∀ d ∈ [0, 1], ∀ u ∈ solver (getc w1 d) (getc w2 d) (getc w3 d) (getc w4 d) (getc point d),
+        (-(0.001 : K)) ≤ u → u ≤ (1.001 : K) → is_near_to (curve_point_at_pos w1 w2 w3 w4 u) point accuracy = false) ∧
+    is_near_to w1 point (1e-9 : K) = false ∧ is_near_to w4 point (1e-9 : K) = false := by
+  unfold solve_curve_for_t_along_axis at h
+  dsimp only at h
+  split at h
+  · -- something was found: the function does not answer `None`
+    rename_i r hr
+    obtain ⟨d, _, hfd⟩ := List.exists_of_findSome?_eq_some hr
+    split at hfd
+    · rename_i r' hr'
+      obtain ⟨u, _, hfu⟩ := List.exists_of_findSome?_eq_some hr'
+      split at hfu
+      · cases hfu
+      · split at hfu
+        · cases hfu; cases hfd; cases h
+        · cases hfu
+    · cases hfd
+  · rename_i hnone
+    refine ⟨?_, ?_, ?_⟩
+    · intro d hd u hu hlo hhi
+      have hd' : d ∈ List.range' 0 (2 - 0) := by
+        simp only [List.mem_cons, List.mem_nil_iff, or_false] at hd
+        rcases hd with rfl | rfl <;> simp [List.mem_range'_1]
+      have h1 := (List.findSome?_eq_none_iff.1 hnone) d hd'
+      split at h1
+      · cases h1
+      · rename_i hinner
+        have h2 := (List.findSome?_eq_none_iff.1 hinner) u hu
+        split at h2
+        · rename_i hrange
+          simp only [Bool.not_eq_true', Bool.and_eq_false_iff, decide_eq_false_iff_not] at hrange
+          rcases hrange with hr | hr
+          · exact absurd hlo hr
+          · exact absurd hhi hr
+        · split at h2
+          · cases h2
+          · rename_i hn; simpa using hn
+    · split at h
+      · cases h
+      · rename_i hn; simpa using hn
+    · split at h
+      · cases h
+      · split at h
+        · cases h
+        · rename_i hn; simpa using hn
+
 /-- a reported pair of parameters `(a on curve 1, c on curve 2)` is an end point of one curve located on the other one:
     curve 2's start (`c = 0`) or end (`c = 1`) found on curve 1 at `a`, or curve 1's start (`a = 0`) or end (`a = 1`) found on
     curve 2 at `c` -/
